@@ -240,7 +240,10 @@ PARAMS = [{}, {"skipws": False}, {"skipws": True}, {"ws": " "}, {"ws": "\n"}]
 COMMENTS = {None: None, "line": ("Comment", {}, RE(r"#.*$")), "block": ("Comment", {}, RE(r"/\*(.|\n)*?\*/"))}
 
 
-def frules(tier):
+WS_SETS = [{}, {"ws": "\r\n"}, {"ws": " \t\r\n"}, {"ws": "\t"}]  # whitespace sets of several characters (second F-rules parameter list)
+
+
+def frules(tier, PARAMS=PARAMS):
     """yields (label, grammar). Quick: at most one rule carries a modifier; thorough: up to two."""
     children = list(CHILD_BODIES)
     maxmods = 1 if tier == "quick" else 2
